@@ -10,14 +10,14 @@ from engine import Check
 from adapter import SARGS
 
 NARGS = len(SARGS)
-KEYCLS_DEFAULT = [0, 1, 1, 1, 2, 3, 4, 4, 5]
-KEYCLS_CUSTOM = [0, 1, 1, 1, 1, 1, 2, 2, 2]
+KEYCLS_DEFAULT = [0, 1, 1, 1, 2, 3, 4, 4, 5, 6]
+KEYCLS_CUSTOM = [0, 1, 1, 1, 1, 1, 2, 2, 2, 1]
 MAPOF = [0, 0, 0, 1, 2, 2]
 
 
 def ts_ops():
     for c in range(3):
-        for a in (0, 1, 4, 6, 8):
+        for a in (0, 1, 4, 6, 8, 9):
             yield "tsnew C%d A%d" % (c, a)
         yield "tsclear C%d" % c
     yield "tsclear *"
@@ -70,16 +70,28 @@ class C18(Check):
         t = line.split()
         if t[0] == "tsnew":
             c = int(t[1][1:])
-            obj = real.T[int(out.split()[1][1:])]
-            if type(obj) is not real.TS[c]:
-                return "%s returned an instance of %s" % (line, type(obj).__name__)
-            inits = [(o, a, k) for (o, a, k) in real.sg_log if o is obj]
+            if out.startswith("err"):
+                # only a first construction of a period whose __init__ raises may raise
+                if t[2] != "A9" or out != "err ValueError":
+                    return "%s raised (%s)" % (line, out)
+                if c in self.book:
+                    return "%s raised although the class has an instance (__init__ must not run again)" % line
+                return None
+            if out.endswith("'"):
+                return "%s returned a second object passing for the instance" % line
+            n, ci = real.last_ts
+            if n is None:
+                return "%s returned an object whose __init__ never completed" % line
+            if ci != c:
+                return "%s returned an instance of class index %s" % (line, ci)
+            obj = n                # the harness keeps no reference: the object is known by its number
+            inits = [(o, a, k) for (o, _cn, a, k) in real.ts_log if o == obj]
             if c in self.book:
-                if self.book[c] is not obj:
+                if self.book[c] != obj:
                     return "%s returned a different object than earlier in this clear-period" % line
             else:
                 for c2, o2 in self.book.items():
-                    if o2 is obj:
+                    if o2 == obj:
                         return "%s returned the instance of another class" % line
                 self.book[c] = obj
                 first = SARGS[int(t[2][1:])]
@@ -117,7 +129,7 @@ class C17(Check):
                     lines += [op, "ssobs"]
                 yield run_lines(real, lines)
         else:
-            small = [o for o in ops0 if o.split()[1] in ("C0", "C1", "C2", "C4") and (len(o.split()) < 3 or o.split()[2] in ("A1", "A4", "A5"))]
+            small = [o for o in ops0 if o.split()[1] in ("C0", "C1", "C2", "C4") and (len(o.split()) < 3 or o.split()[2] in ("A1", "A4", "A5", "A9"))]
             for combo in itertools.product(small, repeat=2):
                 lines = ["reset"]
                 for op in combo:
@@ -166,12 +178,21 @@ class C17(Check):
             return None
         if op == "ssnew":
             c, a = int(t[1][1:]), int(t[2][1:])
-            obj = real.S[int(out.split()[1][1:])]
-            if type(obj) is not real.SS[c]:
-                return "%s returned an instance of %s" % (line, type(obj).__name__)
             k = self.key(c, a)
             ninit = len(real.sg_log) - pre[1]
-            if k in self.live:
+            if out.startswith("err"):
+                if a != 9 or out != "err ValueError":
+                    return "%s raised (%s)" % (line, out)
+                if k in self.live:
+                    return "%s: live key, but __init__ ran (and raised)" % line
+                obj = None
+            else:
+                obj = real.S[int(out.split()[1][1:])]
+                if type(obj) is not real.SS[c]:
+                    return "%s returned an instance of %s" % (line, type(obj).__name__)
+            if obj is None:
+                pass        # nothing may have been registered: checked by the reports below
+            elif k in self.live:
                 if self.live[k] is not obj:
                     return "%s: live key, but a different instance was returned" % line
                 if ninit != 0:
